@@ -167,6 +167,32 @@ func registerExtlib(ex *Executor) {
 	I["(*encoding/json.Encoder).SetEscapeHTML"] = func(ex *Executor, st *State, cc *CallCtx, args []Val) (Val, ctl) {
 		return nil, cNext
 	}
+	// json.Marshal(v): the Encoder's image without the trailing newline (same failure predicate)
+	I["encoding/json.Marshal"] = func(ex *Executor, st *State, cc *CallCtx, args []Val) (Val, ctl) {
+		var parts []*smt.Term
+		ex.flatten(st, args[0], 0, &parts)
+		shape := smt.StrC("shape")
+		for _, t := range parts {
+			if t.IsConst() {
+				shape = smt.App("enc2", smt.String, shape, t)
+			}
+		}
+		fail := smt.App("json_fails", smt.Bool, shape)
+		if ex.branch(st, fail) {
+			st.ND = append(st.ND[:len(st.ND):len(st.ND)], NDRec{Kind: "ext-fail", Tag: "json.Encode fails", T: smt.True})
+			es := ex.lookupType("errors", "errorString")
+			ep := ex.alloc(st, es, "json-error", &StructV{[]Val{smt.StrC("json: unsupported value")}})
+			return TupleV{BytesV{S: smt.StrC(""), Nil: smt.True}, IfaceV{T: types.NewPointer(es), V: ep}}, cNext
+		}
+		acc := smt.StrC("json")
+		for _, t := range parts {
+			acc = smt.App("enc2", smt.String, acc, t)
+		}
+		return TupleV{BytesV{S: smt.App("json", smt.String, acc), Nil: smt.False}, IfaceV{}}, cNext
+	}
+	I["(time.Time).MarshalJSON"] = func(ex *Executor, st *State, cc *CallCtx, args []Val) (Val, ctl) {
+		return TupleV{BytesV{S: smt.App("time_json", smt.String, args[0].(*smt.Term)), Nil: smt.False}, IfaceV{}}, cNext
+	}
 	// Encode: either fails (environment choice; nothing written) or appends json(v) — an uninterpreted,
 	// deterministic function of the flattened value — followed by "\n" to the underlying bytes.Buffer.
 	I["(*encoding/json.Encoder).Encode"] = func(ex *Executor, st *State, cc *CallCtx, args []Val) (Val, ctl) {
